@@ -268,6 +268,24 @@ PROPS = {
         ],
         "level_text": "Lean theorems C03_exact / C03_iff / C03_property_form / C03_history / C03_chunks / C03_filters_compile over the wiring table regenerated from command/*.go on every run (wiring_compatible, wiring_complete, engine_facts are decided by the kernel on the regenerated data): for every packet-scan command row, with and without --vpn, every valid range (any subnet or none, any list of port ranges, hence every chunk of startPortScanEngine), every prior contents of the processor's reused decoder structs and every byte string on the wire, the installed BPF filter followed by the processor puts on the result channel exactly Spec.Reply.replyRecord of that frame: the record made of the frame's own source address, source port and flag letters / ICMP type, code, TTL / sender MAC if the frame is a well-formed unfragmented frame of the scanned protocol (flat offset-defined header chain of Spec/Frame.lean) whose source lies in the target subnet, whose source port lies in one of the ranges being scanned, whose TCP byte 13 is exactly 0x12 for the SYN scan and whose ICMP type is not 8 -- and nothing for any other byte string; at most one record per frame; for whole captures frame by frame independently of history. Proof: both directions of decoder <-> flat header chain (C06 gives record => chain; the converse forward-decoding lemmas are new), filter denotation collapsed to byte conditions on frames with a chain, netmask arithmetic (a AND mask = net <=> equal prefixes). Tied to the code by the translator (wiring) and by component bpf: real filter strings (render, byte for byte), real libpcap + BPF VM and real processors on frames aimed at the range, one-field-off variants, truncations at every header boundary, IPv6 / VLAN / fragments and all malformed families, with the Spec verdict evaluated on the observed outcome.",
         "level_note": "Trusted: Lean kernel; sxfacts reads the wiring faithfully (cross-checked: the harness runs the rows it reports); libpcap/BPF and gopacket semantics are models validated differentially on every run (quick: 450 ranges x 8-14 frames + 300 render cases + 1.5k processor histories), not proved; kernel delivery and snap-length truncation are assumptions.",
+    "C15": {
+        "modules": ["SxVerif.Props.C15"],
+        "components": ["limiter"],
+        "trusted_base": [
+            "modelled, not verified: go.uber.org/ratelimit v0.2.0 limiter_atomic.go (newAtomicBased, Take) as Model/Limiter.lean — one state update per Take as a function of the loaded state and the clock reading of the successful CAS iteration; time.Time/time.Duration as unbounded integers (ns since Go's zero time)",
+            "Mathlib v4.33.0 (Finset.Icc cardinality, min'/max') for the order-free corollary C15_any_set only — checked by the same kernel",
+            "wrapper bodies, constructor literals, the two wiring sites, the per-command plumbing and the go.mod version are regenerated from the tree by sxfacts (Generated/Limiter.lean); SxVerif.Limiter.wrapperEvents/wiringOK say what that data means",
+        ],
+        "assumptions": [
+            "clock.Sleep(d) returns no earlier than d after it was called (the theorems bound the release times Take returns; a probe leaves after its release time only if Sleep really sleeps)",
+            "every clock reading lies after Go's zero time.Time 0001-01-01T00:00:00Z (hypothesis ClockOK; the library marks 'no request yet' by the zero time)",
+            "no int64 overflow of time.Duration: readings within +-146 years of each other and 10*W/N < 2^63 ns",
+            "concurrent Takes are linearised by the compare-and-swap on the state pointer (validated: every concurrent run of the real limiter is checked to have an interleaving the sequential model reproduces exactly)",
+            "wire time of a probe = its release time + dispatch latency eps >= 0 (C15_wire); for a single sender goroutine no assumption on eps is needed (C15_sequential, one unit weaker)",
+            "parseRateLimit exactness (N, W denote what --rate says; W >= 0, 0 <= N < 2^31) is C18's theorem C18_rate_exact",
+        ],
+        "level_text": "Lean theorems C15_rate (for all N >= 1, W >= 0, ALL clock sequences after Go's zero time, monotone or not, all i and k >= 1: release(i+k-1) - release(i) >= (k-1-10)*floor(W/N); potential-function proof, no bound on lengths), C15_rate_slack (any burst allowance), C15_any_set (order-free: any k distinct probes span >= (k-1-10)*floor(W/N)), C15_held (never released before asking; Sleep argument = release - now), C15_wire (wire times with tolerance eps), C15_sequential (single sender, no eps, (k-2-10)), C15_spec_verdict (the executable Spec predicate is true of every finite model run), C15_new (rate 0 panics, never reached), C15_charged_once (for every call sequence on a wrapper each sent item is charged exactly once before it is handed on, reads never), and over facts regenerated from the source on every run C15_wrapper_shape / C15_wiring / C15_plumbing (method bodies are exactly Take-then-delegate, ReadPacketData not overridden, limiter installed iff rateCount > 0 with ratelimit.New(rateCount, Per(rateWindow)) and no slack option at both sites, every packet command passes rateCount/rateWindow on, library version v0.2.0). Tied to the code by running the REAL ratelimit limiter under scripted clocks (exact equality of release times and Sleep arguments with the model, incl. readings around the zero time, the andres-erbsen mock clock as a sequential sender and concurrent Takes with linearisation check), the REAL wrappers around a counting limiter and recording delegate, and the REAL newScanEngine wiring in real time (sequential bound on Scan start times).",
+        "level_note": "Trusted: Lean kernel (+ Mathlib for C15_any_set); the limiter model is validated differentially on every run, not proved from the Go source; Sleep semantics, dispatch latency eps and int64 range are runtime assumptions; the packet wiring site (startPacketScanEngine needs an AF_PACKET socket) is tied by generated facts only, the application wiring site also dynamically; the order-free clause of the harness verdict (release times sorted) is justified by C15_any_set on paper, not by a list-level theorem. Observed library quirk (harmless direction): after a failed CAS iteration that wanted to sleep, Take may pass the stale interval to Sleep although the final iteration needs none (sleeps longer than needed, never shorter).",
     },
     "C18": {
         "modules": ["SxVerif.Props.C18"],
